@@ -17,7 +17,9 @@ MANIFEST = dict(
 FAMILIES = ["long_line", "many_lines", "line_comments", "block_comments", "plus_chain", "and_chain", "concat_chain", "in_list", "values_rows",
             "many_statements", "long_string", "long_identifier", "qualified_names", "join_chain", "case_whens", "func_args", "whitespace",
             "string_literals", "quoted_idents", "backtick_idents", "numbers", "placeholders", "dollar_quoted", "dollar_tags_unclosed", "casts",
-            "json_ops", "subscripts", "semicolons", "dots", "or_like", "order_by_list", "crlf_lines", "unicode_idents"]
+            "json_ops", "subscripts", "semicolons", "dots", "or_like", "order_by_list", "crlf_lines", "unicode_idents",
+            # malformed inputs (error paths and recovery must be near-linear too)
+            "union_dangling", "broken_statements", "stmts_last_broken", "keyword_soup"]
 ENTRIES = ["tokenize", "tokenize_ctx", "parse", "parse_ctx", "validate", "recovery", "sql", "format", "formatter", "scan", "scansql", "extract", "lint"]
 CPU_RATIO_LIMIT = 9.0     # CPU time for a 4x larger input (min of repeats), judged only when the smallest run takes >= 20 ms
 EXP_LIMIT = 1.5
